@@ -107,6 +107,11 @@ def run(ctx):
                     if not quick and (k + ctx.seed) % 2:
                         continue
                     insts.append({"r1": r1, "p1": list(p1), "r2": r2, "p2": list(p2)})
+    # the periods of the C++20 calendar typedefs (std::chrono::days/weeks/months/years = duration<int64_t, ratio<86400 / 604800 / 2629746 / 31556952>>):
+    # the program is built as C++20, where these exact types exist and any dedicated mapping for them would take precedence over the generic one
+    for p1 in ((31556952, 1), (2629746, 1), (604800, 1), (86400, 1)):
+        for r2, p2 in (("int64_t", (1, 1)), ("double", (3600, 1)), ("int64_t", (86400, 1)), ("int64_t", p1)):
+            insts.append({"r1": "int64_t", "p1": list(p1), "r2": r2, "p2": list(p2)})
     ctx.bump("grid_instances", len(insts))
     rnd = hyp.collect(ctx, inst(), 40 if quick else 400)
     insts += rnd
